@@ -10,18 +10,12 @@ Lemma r_eqb_refl r : r_eqb r r = true.
 Proof. induction r; cbn; auto. rewrite Nat.eqb_refl. auto. Qed.
 
 (* ---------- discipline ---------- *)
-Definition cache_body (c : ccall) : list ((ccall * R) -> lru -> unit -> (ccall * R) * lru) :=
-  [fun l c0 _ => let '(c', r) := lru_exec (fst l) c0 in ((fst l, r), c')].
 Lemma cache_prog_cs c : cache_prog true c = cs_prog lru unit (ccall * R) (cache_body c).
 Proof. reflexivity. Qed.
 
-Definition store_body (c : scall) : list ((scall * R) -> store -> unit -> (scall * R) * store) :=
-  [fun l o _ => let '(o', r) := store_exec (fst l) o in ((fst l, r), o')].
 Lemma store_prog_cs c : store_prog c = cs_prog store unit (scall * R) (store_body c).
 Proof. reflexivity. Qed.
 
-Definition text_body contents bad ce (c : tcall) : list (tls -> tobj -> nat -> tls * tobj) :=
-  [t_stat ce; t_read contents bad ce].
 Lemma text_prog_cs contents bad ce c : text_prog contents bad ce true c = cs_prog tobj nat tls (text_body contents bad ce c).
 Proof. reflexivity. Qed.
 
@@ -151,11 +145,14 @@ Section YamlProofs.
   Variable table : nat -> nat -> ydata.
   Variable tree : list nat.
   Variable once : bool.
+  Variable Wi : list nat -> Prop.       (* the file states of the run *)
   Notation yspec := (yspec table).
   Notation yprog := (yaml_prog table tree once).
 
   Definition item_valid (it : yitem) : Prop := yresult it = yspec (snap it).
   Definition cache_valid (o : option yitem) : Prop := forall it, o = Some it -> item_valid it.
+  (* the version was the file's version in some state of the run *)
+  Definition from_world (p : nat * nat) : Prop := exists w, Wi w /\ snd p = nth (fst p) w 0.
 
   Lemma yspec_snoc rd f v : yspec (rd ++ [(f, v)]) = ymerge (yspec rd) (table f v).
   Proof. unfold Instances.yspec. rewrite fold_left_app. reflexivity. Qed.
@@ -175,25 +172,29 @@ Section YamlProofs.
 
   (* the assertion attached to (local state, remaining program) *)
   Definition core (l : yls) : Prop :=
-    cache_valid (old l) /\ out l = yspec (reads l) /\ (once = true -> agree (reads l)).
+    cache_valid (old l) /\ out l = yspec (reads l) /\ (once = true -> agree (reads l)) /\ Forall from_world (reads l).
+  Definition full (l : yls) : Prop := map fst (reads l) = tree.
 
   Definition tail3 : list (mstep (option yitem) (list nat) yls) := [Acq; Step (y_set); Rel].
   Definition Qy (l : yls) (p : list (mstep (option yitem) (list nat) yls)) : Prop :=
     p = yprog tt
     \/ p = [Step y_get; Rel] ++ map (fun f => Step (y_read table once f)) tree ++ tail3
-    \/ (core l /\ exists fs, p = Rel :: map (fun f => Step (y_read table once f)) fs ++ tail3)
-    \/ (core l /\ exists fs, p = map (fun f => Step (y_read table once f)) fs ++ tail3)
-    \/ (core l /\ p = [Step y_set; Rel])
-    \/ (core l /\ p = [Rel])
-    \/ (core l /\ p = []).
+    \/ (core l /\ exists fs, p = Rel :: map (fun f => Step (y_read table once f)) fs ++ tail3 /\ map fst (reads l) ++ fs = tree)
+    \/ (core l /\ exists fs, p = map (fun f => Step (y_read table once f)) fs ++ tail3 /\ map fst (reads l) ++ fs = tree)
+    \/ (core l /\ full l /\ p = [Step y_set; Rel])
+    \/ (core l /\ full l /\ p = [Rel])
+    \/ (core l /\ full l /\ p = []).
 
-  Definition Ry (r : R) : Prop := exists rd, r = flat (yspec rd) /\ (once = true -> agree rd).
+  (* what every returned result is: get_data_spec of versions read in tree order, one version per file
+     (fe12c42), each version being the file's version in some state of the run *)
+  Definition Ry (r : R) : Prop :=
+    exists rd, r = flat (yspec rd) /\ (once = true -> agree rd) /\ map fst rd = tree /\ Forall from_world rd.
 
-  Lemma core_read l f w o : core l -> core (fst (y_read table once f l o w)).
+  Lemma core_read l f w o : Wi w -> core l -> core (fst (y_read table once f l o w)).
   Proof.
-    intros (Hv & Ho & Ha). unfold y_read.
+    intros HW (Hv & Ho & Ha & Hf). unfold y_read.
     set (v := match (if once then alookup f (reads l) else None) with Some v0 => v0 | None => nth f w 0 end).
-    unfold core. cbn [fst old reads out]. split; [exact Hv|]. split.
+    unfold core. cbn [fst old reads out]. split; [exact Hv|]. split; [|split].
     - rewrite yspec_snoc, Ho. reflexivity.
     - intros Honce. specialize (Ha Honce).
       assert (Hnew : forall g x, In (g, x) (reads l ++ [(f, v)]) -> In (g, x) (reads l) \/ (g = f /\ x = v)).
@@ -213,9 +214,18 @@ Section YamlProofs.
         * exfalso. eapply Hn; eauto.
         * exfalso. eapply Hn; eauto.
         * reflexivity.
+    - apply Forall_app. split; [exact Hf|]. constructor; [|constructor].
+      subst v. destruct (if once then alookup f (reads l) else None) as [v0|] eqn:E.
+      + destruct once; [|discriminate]. apply alookup_in in E. rewrite Forall_forall in Hf.
+        exact (Hf _ E).
+      + exists w. split; [exact HW|reflexivity].
   Qed.
 
-  Ltac qy_cases H := destruct H as [H|[H|[(Hc & fs & H)|[(Hc & fs & H)|[(Hc & H)|[(Hc & H)|(Hc & H)]]]]]].
+  Lemma reads_of_read l f w o : reads (fst (y_read table once f l o w)) =
+    reads l ++ [(f, match (if once then alookup f (reads l) else None) with Some v0 => v0 | None => nth f w 0 end)].
+  Proof. reflexivity. Qed.
+
+  Ltac qy_cases H := destruct H as [H|[H|[(Hc & fs & H & Ht)|[(Hc & fs & H & Ht)|[(Hc & Hfl & H)|[(Hc & Hfl & H)|(Hc & Hfl & H)]]]]]].
 
   Lemma qy_begin c : Qy (yls_begin c) (yprog c).
   Proof. destruct c. left. reflexivity. Qed.
@@ -224,13 +234,15 @@ Section YamlProofs.
   Proof.
     unfold Qy, Instances.yaml_prog, tail3. intros H. qy_cases H; try discriminate.
     - injection H; intros; subst. right. left. reflexivity.
-    - destruct fs; cbn in H; [|discriminate]. injection H; intros; subst. right. right. right. right. left. auto.
+    - destruct fs; cbn in H; [|discriminate]. injection H; intros; subst.
+      right. right. right. right. left. split; [exact Hc|]. split; [|reflexivity].
+      unfold full. rewrite app_nil_r in Ht. exact Ht.
   Qed.
 
   Lemma qy_rel l rest : Qy l (Rel :: rest) -> Qy l rest.
   Proof.
     unfold Qy, Instances.yaml_prog, tail3. intros H. qy_cases H; try discriminate.
-    - injection H; intros; subst. right. right. right. left. split; auto. exists fs. reflexivity.
+    - injection H; intros; subst. right. right. right. left. split; auto. exists fs. split; [reflexivity|exact Ht].
     - destruct fs; cbn in H; discriminate.
     - injection H; intros; subst. right. right. right. right. right. right. auto.
   Qed.
@@ -241,55 +253,55 @@ Section YamlProofs.
     | None => out l
     end = yspec (reads l).
   Proof.
-    intros (Hv & Ho & Ha). destruct (old l) as [it|] eqn:Eo; auto.
+    intros (Hv & Ho & Ha & _). destruct (old l) as [it|] eqn:Eo; auto.
     destruct (pairs_eqb (snap it) (reads l)) eqn:Ep; auto.
     apply pairs_eqb_eq in Ep. rewrite <- Ep. apply Hv. reflexivity.
   Qed.
 
-  Lemma qy_step f l rest o w l' o' : cache_valid o -> Qy l (Step f :: rest) -> f l o w = (l', o') ->
+  Lemma qy_step f l rest o w l' o' : cache_valid o -> Wi w -> Qy l (Step f :: rest) -> f l o w = (l', o') ->
     cache_valid o' /\ Qy l' rest.
   Proof.
-    unfold Qy, Instances.yaml_prog, tail3. intros Hcv H Hf. qy_cases H; try discriminate.
+    unfold Qy, Instances.yaml_prog, tail3. intros Hcv HW H Hf. qy_cases H; try discriminate.
     - injection H; intros; subst. unfold y_get in Hf. injection Hf as <- <-. split; [exact Hcv|].
       right. right. left. split.
       + repeat split; cbn; auto. intros _ g v v' [].
-      + exists tree. reflexivity.
+      + exists tree. split; reflexivity.
     - destruct fs as [|f0 fs]; cbn in H; [discriminate|]. injection H; intros; subst. split.
       + unfold y_read in Hf. injection Hf as <- <-. exact Hcv.
       + right. right. right. left. split.
-        * pose proof (core_read l f0 w o Hc) as K. rewrite Hf in K. exact K.
-        * exists fs. reflexivity.
+        * pose proof (core_read l f0 w o HW Hc) as K. rewrite Hf in K. exact K.
+        * exists fs. split; [reflexivity|].
+          pose proof (reads_of_read l f0 w o) as K. rewrite Hf in K. cbn [fst] in K. rewrite K.
+          rewrite map_app. cbn [map fst]. rewrite <- app_assoc. exact Ht.
     - injection H; intros; subst. unfold y_set in Hf. injection Hf as <- <-. pose proof (set_valid l Hc) as Es. split.
       + intros it Hit. injection Hit as <-. unfold item_valid. cbn [yresult snap]. exact Es.
-      + right. right. right. right. right. left. split; auto.
-        destruct Hc as (Hv & Ho & Ha). repeat split; cbn [old reads out]; auto.
+      + right. right. right. right. right. left. split; [|split; [exact Hfl|reflexivity]].
+        destruct Hc as (Hv & Ho & Ha & Hfw). repeat split; cbn [old reads out]; auto.
   Qed.
 
   Lemma qy_end l : Qy l [] -> Ry (yret l).
   Proof.
     unfold Qy, Instances.yaml_prog, tail3. intros H. qy_cases H; try discriminate.
     - destruct fs; discriminate.
-    - destruct Hc as (Hv & Ho & Ha). exists (reads l). unfold yret. rewrite Ho. auto.
-  Qed.
-
-  (* yaml_concurrent: any number of threads, any number of get_data calls each, any schedule, any file
-     changes: every item ever stored in the cache is a correct result for the file versions its call read,
-     and every call returns get_data_spec of the versions IT read; with the fix each file contributes
-     one version *)
-  Notation ymst := (mst (option yitem) (list nat) yls unit R).
-  Notation yrun := (run (option yitem) (list nat) yls unit R nat yls_begin yprog yret bump).
-  Theorem yaml_concurrent w calls sch :
-    let s := yrun (init (option yitem) (list nat) yls unit R (yls_begin tt) None w calls) sch in
-    cache_valid (obj s) /\ forall t, In t (threads s) -> Forall Ry (res t).
-  Proof.
-    intros s.
-    pose proof (oinv_run (option yitem) (list nat) yls unit R nat yls_begin yprog yret bump
-                  cache_valid Qy Ry qy_begin qy_acq qy_rel qy_step qy_end sch _
-                  (oinv_init (option yitem) (list nat) yls unit R cache_valid Qy Ry (yls_begin tt) None w calls
-                     (fun it H => ltac:(discriminate)))) as [Ho Ht].
-    split; [exact Ho|]. intros t Hin. apply Ht. exact Hin.
+    - destruct Hc as (Hv & Ho & Ha & Hfw). exists (reads l). unfold yret. rewrite Ho. repeat split; auto.
   Qed.
 End YamlProofs.
+
+Lemma worlds_of_fold a : forall w b, In (fold_left (fun w e => bump e w) a w) (worlds_of w (a ++ b)).
+Proof.
+  induction a as [|e a IH]; intros w b; cbn.
+  - destruct b; cbn; auto.
+  - right. apply IH.
+Qed.
+
+Lemma rd_is_snapshot w : forall rd tree, map fst rd = tree ->
+  (forall f v, In (f, v) rd -> v = nth f w 0) -> rd = snapshot_of tree w.
+Proof.
+  induction rd as [|[f v] rd IH]; intros tree Hm Hv; subst tree; cbn; auto.
+  f_equal.
+  - f_equal. apply Hv. left. reflexivity.
+  - apply IH; auto. intros g x Hin. apply Hv. right. exact Hin.
+Qed.
 
 (* a single change: versions read per file agree, all come from the world before or after the change
    => the snapshot is one of the two worlds *)
@@ -319,4 +331,67 @@ Proof.
       apply existsb_exists. exists (g, v). split; auto. cbn. rewrite Nat.eqb_refl. cbn.
       apply negb_true_iff. apply Nat.eqb_neq. exact Hv.
     + destruct (Hs _ _ Hf) as [H|H]; auto. rewrite nth_bump_other in H by exact Hne. exact H.
+Qed.
+
+(* ---------- yaml_concurrent ---------- *)
+Section YamlTheorems.
+  Variable table : nat -> nat -> ydata.
+  Variable tree : list nat.
+  Variable once : bool.
+  Notation yrun := (run (option yitem) (list nat) yls unit R nat yls_begin (yaml_prog table tree once) yret bump).
+  Notation yinit w0 calls := (init (option yitem) (list nat) yls unit R (yls_begin tt) None w0 calls).
+  Definition yenvs (sch : list (choice nat)) : list nat := envs_in nat sch.
+  Definition in_run w0 (sch : list (choice nat)) (w : list nat) : Prop := In w (worlds_of w0 (yenvs sch)).
+
+  (* any number of threads, any number of get_data calls each, any schedule, any file changes: every item
+     ever stored in the cache is a correct result for the file versions its call read; every call returns
+     get_data_spec of versions read in tree order, one version per file (fe12c42), each of them the file's
+     version in some state of the run *)
+  Theorem yaml_concurrent w0 calls sch :
+    let s := yrun (yinit w0 calls) sch in
+    cache_valid table (obj s) /\
+    forall t, In t (threads s) -> Forall (Ry table tree once (in_run w0 sch)) (res t).
+  Proof.
+    intros s.
+    assert (Hw : worlds_ok (option yitem) (list nat) yls unit R nat yls_begin (yaml_prog table tree once) yret bump
+                   (in_run w0 sch) (yinit w0 calls) sch).
+    { intros p q E. rewrite (world_run (option yitem) (list nat) yls unit R nat). cbn [world init].
+      unfold in_run, yenvs. rewrite E. unfold envs_in. rewrite flat_map_app. apply worlds_of_fold. }
+    assert (Hck : Forall (Forall (fun _ : unit => True)) calls).
+    { apply Forall_forall. intros l _. apply Forall_forall. auto. }
+    pose proof (oinv_run (option yitem) (list nat) yls unit R nat yls_begin (yaml_prog table tree once) yret bump
+                  (cache_valid table) (in_run w0 sch) (Qy table tree once (in_run w0 sch)) (Ry table tree once (in_run w0 sch))
+                  (fun _ => True) (fun c _ => qy_begin table tree once (in_run w0 sch) c) (qy_acq table tree once (in_run w0 sch))
+                  (qy_rel table tree once (in_run w0 sch)) (qy_step table tree once (in_run w0 sch))
+                  (qy_end table tree once (in_run w0 sch)) sch _
+                  (oinv_init (option yitem) (list nat) yls unit R (cache_valid table) (Qy table tree once (in_run w0 sch))
+                     (Ry table tree once (in_run w0 sch)) (fun _ => True) (yls_begin tt) None w0 calls
+                     (fun it H => ltac:(discriminate)) Hck)
+                  Hw) as [Ho Ht].
+    split; [exact Ho|]. intros t Hin. destruct (Ht t Hin) as (_ & Hr & _). exact Hr.
+  Qed.
+End YamlTheorems.
+
+(* with at most one file change during the run, every answer of the fixed code is get_data_spec of a
+   file state that was present during the run *)
+Theorem yaml_results_in_specs table tree w0 calls sch :
+  length (yenvs sch) <= 1 ->
+  let s := run (option yitem) (list nat) yls unit R nat yls_begin (yaml_prog table tree true) yret bump
+               (init (option yitem) (list nat) yls unit R (yls_begin tt) None w0 calls) sch in
+  forall t, In t (threads s) -> forall r, In r (res t) ->
+    In r (map (fun w => flat (yspec table (snapshot_of tree w))) (worlds_of w0 (yenvs sch))).
+Proof.
+  intros Hlen s t Ht r Hr.
+  destruct (yaml_concurrent table tree true w0 calls sch) as [_ H]. fold s in H.
+  specialize (H t Ht). rewrite Forall_forall in H. destruct (H r Hr) as (rd & -> & Ha & Hm & Hf).
+  specialize (Ha eq_refl). rewrite Forall_forall in Hf. unfold from_world, in_run in Hf.
+  destruct (yenvs sch) as [|g [|g' rest]] eqn:Ee; cbn [worlds_of map].
+  - left. f_equal. f_equal. symmetry. apply rd_is_snapshot; auto.
+    intros f v Hin. destruct (Hf _ Hin) as (w & [<-|[]] & Hv). exact Hv.
+  - assert (Hs : forall f v, In (f, v) rd -> v = nth f w0 0 \/ v = nth f (bump g w0) 0).
+    { intros f v Hin. destruct (Hf _ Hin) as (w & Hw & Hv). cbn in Hw. destruct Hw as [<-|[<-|[]]]; auto. }
+    destruct (one_change_consistent w0 g rd Ha Hs) as [K|K].
+    + left. f_equal. f_equal. symmetry. apply rd_is_snapshot; auto.
+    + right. left. f_equal. f_equal. symmetry. apply rd_is_snapshot; auto.
+  - cbn in Hlen. lia.
 Qed.
